@@ -193,7 +193,7 @@ def weights_case(case):
             viol("weights-sum", f"sum {np.sum(w)!r} for {yv}")
         tot = {c: float(np.sum(w[y == c])) for c in set(yv)}
         ts = list(tot.values())
-        if max(ts) - min(ts) > 1e-12:
+        if not max(ts) - min(ts) <= 1e-12:
             viol("weights-class", f"class totals {tot} for {yv}")
     return out, ("weights", cnt)
 
@@ -258,7 +258,7 @@ def export_case(case):
                 elif not math.isnan(b):
                     tol = 0.5e-2 * 10 ** math.floor(
                         math.log10(abs(b))) if b != 0 else 0.0
-                    if abs(a - b) > tol * 1.0000001:
+                    if not abs(a - b) <= tol * 1.0000001:
                         viol("export-roundtrip", nm, f"loaded {a!r}, "
                              f"feature {b!r} (three significant digits "
                              f"allow {tol:.3e})")
